@@ -744,7 +744,10 @@ def c11(rng, count):
             argv = ["-c", gen_bounds(rng, hi=4, fmt=0.1, fillers=["", "x"])]
         elif kind == "lines":
             argv = ["-l", rng.choice([gen_forward_bounds(rng, hi=4, strict=False, fmt=0), gen_bounds(rng, hi=4, fmt=0)])]
-            if rng.random() < 0.3: argv.append("--no-join")
+            r = rng.random()
+            if r < 0.3: argv.append("--no-join")
+            elif r < 0.55: argv.append("-j")
+            elif r < 0.65: argv += ["-r", rng.choice(["/", "xy"])]
         elif kind == "json":
             argv = ["--json", "-d", delim, "-f", gen_bounds(rng, fmt=0)]
         else:
